@@ -1,4 +1,5 @@
 """C18 - parsers are total: panic-site inventory and discharge (E2 + E4)."""
+import re
 from ..terms import short, is_int, Int
 from ..walk import Walker, cname, Budget
 from ..common import describe_path
@@ -27,6 +28,23 @@ def parser_entries(db):
     ents.append(db.method("PriceLevelSnapshotPackage", "from_json"))
     ents.append(db.method("PriceLevel", "from_snapshot_json"))
     ents.append(db.method("PriceLevel", "try_from", trait="TryFrom"))
+    # discovered: every other function of the crate that takes text and answers with a Result is a parser entry
+    # (a new `from_json(&str)`, `TryFrom<&str>`, `parse_*` helper made public, ...)
+    have = {b.defp for b in ents}
+    for d, b in sorted(db.bodies.items()):
+        if b.kind == "Closure" or d in have or b.argc < 1:
+            continue
+        ret = b.locals[0]["ty"].replace(" ", "")
+        if not (ret.startswith("std::result::Result<") or ret.startswith("core::result::Result<")):
+            continue
+        text = False
+        for i in range(1, b.argc + 1):
+            ty = b.locals[i]["ty"].replace(" ", "")
+            ty = re.sub(r"&'[a-z_0-9]+", "&", ty)
+            if ty in ("&str", "&[u8]", "std::string::String", "&std::string::String", "std::vec::Vec<u8>"):
+                text = True
+        if text:
+            ents.append(b)
     return ents
 
 
